@@ -280,7 +280,8 @@ Proof.
   destruct (in_iter_for_sending _ _ Hin Hd) as (f & Hfin & Hg).
   assert (Hx : (seg_send_count (fs_seg f) =? 0) = false).
   { destruct (seg_send_count (fs_seg f) =? 0) eqn:E; [|reflexivity].
-    rewrite <- Hu2. symmetry. apply existsb_exists. exists f; split; assumption. }
+    rewrite <- Hu2. symmetry. apply existsb_exists. exists f; split; [assumption|].
+    rewrite E. reflexivity. }
   rewrite Hg in Hx. apply Z.eqb_neq in Hx. exact Hx.
 Qed.
 
